@@ -2,7 +2,7 @@
 
 Three kinds of scenario:
   seq    an in-process history (<= 4 operations out of to_xmi, to_json, typesystem.to_xml, select(T), select_all, typecheck)
-         on one CAS; compared with the Coq model (coq/Determinism.v `run`) step by step and judged by the oracle;
+         on one CAS (views may hold their sofa data in a uima.cas.ByteArray, with or without an id); compared with the Coq model (coq/Determinism.v `run`) step by step and judged by the oracle;
   emit   one CAS with all ids present: the emitted orders (XMI structures / namespaces / members, JSON types / structures /
          members, type-system XML names) against the model's emit pipelines on inputs given in a different order;
   bytes  (only produced by `extra_checks`, and re-run by --replay) the subprocess oracle: the same scenario serialised in
@@ -33,7 +33,10 @@ RULE = (
     "distinct operations (618 each), and for 60 / 400 further random CASes 8 / 12 random histories of length 4; half of the "
     "CASes are built without explicit ids (indexed structures get generator ids, merely referenced ones and - for JSON - "
     "inlined collections have none until a save), half with an explicit id on every structure. emit: 60 / 300 CASes with all "
-    "ids present, >= 6 user types in >= 5 packages (two pairs of packages share their last component). bytes (subprocess "
+    "ids present, >= 6 user types in >= 5 packages (two pairs of packages share their last component). In all three kinds "
+    "each view has, with probability 0.3 (0.5 in the exhaustively explored CASes, which are chosen to have one that only its "
+    "sofa holds), a uima.cas.ByteArray as sofa data set through view.sofa_array: id-less in the CASes without explicit ids and "
+    "in half of the others (never in emit cases), 1 in 5 also indexed, 1 in 5 shared with the previous sofa. bytes (subprocess "
     "oracle): 40 / 300 such CASes x PYTHONHASHSEED in {0,1,2,random} / {0..5,random,random} x 3 sinks x 2 XMI + 7 JSON option "
     "combinations + type systems built through the API, reloaded from XML (also with three redeclared predefined types), "
     "reconstructed from JSON (FULL, MINIMAL) and merged. A seq case is non-trivial when a save in it assigns an id or two "
@@ -43,7 +46,8 @@ TRUSTED = [
     "Coq 8.16.1 kernel and vm_compute; theorems in Props/C14.v are closed under the global context",
     "hand-written model coq/Determinism.v: every set-iteration / id()-dependent site is an input list in arbitrary order, "
     "Python's stable sorted(key=) is a stable insertion sort, str order is byte-wise order on UTF-8 (sleb), "
-    "id assignment is `visit` over the labels a format's traversal reaches",
+    "id assignment is `visit` over the labels a format's traversal reaches; sofa data arrays are visited after it by XMI "
+    "(those not found by identity, xmi_trav) and before it by JSON (save_pre), not at all by typecheck",
     "PARTIAL: byte identity across processes, hash seeds and sinks (CPython hashing, lxml, json, file objects) is observed "
     "by the subprocess oracle on every run, not proved",
     "which structures a format reaches is computed by the harness (identity-based traversal adapted from harness/scen.py, "
@@ -56,7 +60,8 @@ ASSUMPTIONS = [
     "every structure a format writes separately has an id, or ids are assigned in the order the implementation is seen to "
     "reach the id-less ones (that order depends on id() among ties and is an input of the model)",
     "explicit ids do not collide with ids the generator will hand out (ids below next, or nothing left to assign)",
-    "sofaArray is not used (the JSON serialiser gives it an id outside _find_all_fs)",
+    "sofa data arrays (Sofa.sofaArray) are uima.cas.ByteArray objects set through view.sofa_array; the largest explicit id "
+    "of a CAS that also has id-less structures belongs to an indexed structure (so that the generator is ahead of it)",
 ]
 
 OPS = ["xmi", "json", "tsxml", "select", "select_all", "typecheck"]
@@ -81,7 +86,13 @@ def _build(cassis, sc):
             _TS_CACHE.clear()
         ts = _TS_CACHE[key] = scen.build_ts(cassis, sc["tspec"])
     cas, views, objs = scen.build_cas(cassis, ts, sc["cspec"])
+    c14_driver.set_sofa_arrays(sc["cspec"], views, objs)
     return ts, cas, views, objs
+
+
+def _arrays(sc):
+    """Labels of the byte arrays holding sofa data, in view order (a label twice when two sofas share one array)."""
+    return [v["array"] for v in sc["cspec"]["views"] if v.get("array") is not None]
 
 
 def _is_fs(x):
@@ -149,8 +160,8 @@ def reach(cas, fmt):
     return order
 
 
-def _fingerprint(ts, objs, lab_of):
-    """Content of every labelled structure without ids: feature values with references as labels."""
+def _fingerprint(ts, objs, lab_of, views=()):
+    """Content of every labelled structure without ids: feature values with references as labels; and of every sofa."""
 
     def cv(v):
         if v is None or isinstance(v, (bool, int, str)):
@@ -162,7 +173,8 @@ def _fingerprint(ts, objs, lab_of):
         if isinstance(v, list):
             return [cv(e) for e in v]
         if hasattr(v, "sofaID"):
-            return ["sofa", v.sofaID, v.sofaNum, v.xmiID, v.sofaString, v.mimeType]
+            return ["sofa", v.sofaID, v.sofaNum, v.xmiID, v.sofaString, v.mimeType, v.sofaURI,
+                    None if v.sofaArray is None else lab_of.get(id(v.sofaArray), -1)]
         if _is_fs(v):
             return ["ref", lab_of.get(id(v), -1)]
         return repr(v)
@@ -175,11 +187,13 @@ def _fingerprint(ts, objs, lab_of):
             out.append([lab, t.name, cv(fs.elements)])
         else:
             out.append([lab, t.name, [[f.name, cv(getattr(fs, f.name, None))] for f in t.all_features]])
+    for v in views:
+        out.append(cv(v.get_sofa()))
     return hashlib.sha256(json.dumps(out, sort_keys=True).encode()).hexdigest()[:16]
 
 
 def _parse_xmi(text):
-    """-> (structures [(id, package)], packages in xmlns order without xmi/uima.cas, sofas [(id,num,name)], views [(sofa,[members])])"""
+    """-> (structures [(id, package)], packages in xmlns order without xmi/uima.cas, sofas [(id,num,name,sofaArray)], views [(sofa,[members])])"""
     ns_order = []
     root = None
     for ev, el in ET.iterparse(BytesIO(text.encode("utf-8")), events=("start-ns", "start")):
@@ -199,7 +213,8 @@ def _parse_xmi(text):
         if uri == CAS_NS and local == "NULL":
             continue
         if uri == CAS_NS and local == "Sofa":
-            sofas.append((int(el.get("{%s}id" % XMI_NS)), int(el.get("sofaNum")), el.get("sofaID")))
+            arr = el.get("sofaArray")
+            sofas.append((int(el.get("{%s}id" % XMI_NS)), int(el.get("sofaNum")), el.get("sofaID"), None if arr is None else int(arr)))
         elif uri == CAS_NS and local == "View":
             views.append((int(el.get("sofa")), [int(m) for m in (el.get("members") or "").split()]))
         else:
@@ -214,6 +229,11 @@ def _parse_json(text):
     types = list(d["%TYPES"].keys()) if "%TYPES" in d else None
     views = [(name, v["%SOFA"], list(v["%MEMBERS"])) for name, v in d.get("%VIEWS", {}).items()]
     return fs, types, views
+
+
+def _json_sofa_arrays(text):
+    """Per sofa structure, in document order: the id its @sofaArray names (None without one)."""
+    return [x.get("@sofaArray") for x in json.loads(text).get("%FEATURE_STRUCTURES", []) if x["%TYPE"] == "uima.cas.Sofa"]
 
 
 def _parse_tsxml(text):
@@ -246,10 +266,18 @@ def _queries(views, qtype):
 
 
 def _expected_next(sc):
+    """The generator's next id after the CAS was built, from the scenario: sofas take 1..n; Cas.add hands an id-less
+    structure the next id and reserves an explicit one (the generator then continues above it)."""
     cs = sc["cspec"]
     ids = {o["o"]: o.get("id") for o in cs["objs"]}
-    idless_members = {lab for _vi, lab in cs["members"] if ids[lab] is None}
-    return len(cs["views"]) + len(idless_members) + 1
+    nxt = len(cs["views"]) + 1
+    for _vi, lab in cs["members"]:
+        if ids[lab] is None:
+            ids[lab] = nxt
+            nxt += 1
+        elif ids[lab] >= nxt:
+            nxt = ids[lab] + 1
+    return nxt
 
 
 # ------------------------------------------------------------------------------------------------ run_impl
@@ -270,9 +298,10 @@ def _run_seq(cassis, sc):
     lab_of = {id(fs): l for l, fs in objs.items()}
     X = sorted(lab_of[id(x)] for x in reach(cas, "xmi") if id(x) in lab_of)
     J = sorted(lab_of[id(x)] for x in reach(cas, "json") if id(x) in lab_of)
+    A = _arrays(sc)
     ids0 = [objs[l].xmiID for l in labs]
     q0 = _queries(views, sc["qtype"])
-    fp0 = _fingerprint(ts, objs, lab_of)
+    fp0 = _fingerprint(ts, objs, lab_of, views)
     steps = []
     for op in sc["ops"]:
         st = {"op": op, "doc": None, "digest": None, "tc": None}
@@ -280,9 +309,16 @@ def _run_seq(cassis, sc):
             text = cas.to_xmi() if op == "xmi" else cas.to_json()
             st["digest"] = hashlib.sha256(text.encode("utf-8")).hexdigest()[:20]
             if op == "xmi":
-                doc_ids = [i for i, _p in _parse_xmi(text)[0]]
+                pfs, _nss, psofas, _pviews = _parse_xmi(text)
+                doc_ids = [i for i, _p in pfs]
+                st["sofa_arr"] = [a for _i, _n, _name, a in psofas]
             else:
-                doc_ids = [i for i, t in _parse_json(text)[0] if t != "uima.cas.Sofa"]
+                entries = _parse_json(text)[0]
+                doc_ids = [i for i, t in entries if t != "uima.cas.Sofa"]
+                last = max(k for k, (_i, t) in enumerate(entries) if t == "uima.cas.Sofa")
+                # the leading part: per view the byte array holding the sofa data (if any), then the sofa
+                st["head"] = [["sofa" if t == "uima.cas.Sofa" else "fs", i] for i, t in entries[:last + 1]]
+                st["sofa_arr"] = _json_sofa_arrays(text)
             by_id = {}
             for l in labs:
                 by_id.setdefault(objs[l].xmiID, l)
@@ -300,14 +336,14 @@ def _run_seq(cassis, sc):
             st["tc"] = sorted((by_id.get(e.xmiID, 0), str(e.description)) for e in errs)
         st["ids"] = [objs[l].xmiID for l in labs]
         st["queries"] = _queries(views, sc["qtype"])
-        st["fp"] = _fingerprint(ts, objs, lab_of)
+        st["fp"] = _fingerprint(ts, objs, lab_of, views)
         steps.append(st)
     final = {l: objs[l].xmiID for l in labs}
 
     def order(ls):
         return sorted(ls, key=lambda l: (final[l] is None, final[l] if final[l] is not None else 0, l))
 
-    return {"X": X, "J": J, "tx": order(X), "tj": order(J), "ids0": ids0, "q0": q0, "fp0": fp0, "steps": steps,
+    return {"X": X, "J": J, "A": A, "tx": order(X), "tj": order(J), "ids0": ids0, "q0": q0, "fp0": fp0, "steps": steps,
             "next": _expected_next(sc), "qlabels": _query_labels(cassis, sc)}
 
 
@@ -324,7 +360,16 @@ def _run_emit(cassis, sc):
     def found(fmt):
         return sorted((lab_of[id(x)], x.xmiID, x.type.name) for x in reach(cas, fmt) if id(x) in lab_of)
 
-    obs = {"found_x": found("xmi"), "found_j": found("json")}
+    # XMI also writes every byte array holding sofa data (once); JSON writes those in front of their sofas
+    arr_labs = _arrays(sc)
+    fx = found("xmi")
+    have = {l for l, _i, _t in fx}
+    for l in arr_labs:
+        if l not in have:
+            have.add(l)
+            fx.append((l, objs[l].xmiID, objs[l].type.name))
+    obs = {"found_x": sorted(fx), "found_j": found("json"),
+           "arr_ids": [None if v.get("array") is None else objs[v["array"]].xmiID for v in sc["cspec"]["views"]]}
     obs["views"] = [[v["name"], i + 1, [x.xmiID for x in views[i].select_all()]] for i, v in enumerate(sc["cspec"]["views"])]
     fs, nss, sofas, xviews = _parse_xmi(cas.to_xmi())
     obs.update({"x_fs": fs, "x_ns": nss, "x_sofas": sofas, "x_views": xviews})
@@ -478,13 +523,18 @@ def oracle(cassis, sc, obs):
         return _judge_bytes(obs)
     if sc["kind"] == "emit":
         return _oracle_emit(sc, obs)
-    X, J = set(obs["X"]), set(obs["J"])
+    X, J, A = set(obs["X"]), set(obs["J"]), list(obs["A"])
+    # what each operation may give an id to / has to list: to_xmi the structures the traversal reaches and every byte array
+    # holding sofa data (once); to_json the arrays (in front of their sofas, once per sofa) and what its traversal reaches;
+    # typecheck only walks the traversal
+    want_of = {"xmi": sorted(X | set(A)), "json": sorted(A + sorted(J))}
+    arr_of_view = [v.get("array") for v in sc["cspec"]["views"]]
     prev = obs["ids0"]
     digests = {}
     tcs = []
     for k, st in enumerate(obs["steps"]):
         op = st["op"]
-        may = X if op in ("xmi", "typecheck") else (J if op == "json" else set())
+        may = {"xmi": X | set(A), "typecheck": X, "json": J | set(A)}.get(op, set())
         new = []
         for l, (a, b) in enumerate(zip(prev, st["ids"]), 1):
             if a is not None and a != b:
@@ -497,14 +547,28 @@ def oracle(cassis, sc, obs):
         if len(set(new)) != len(new) or set(new) & set(old):
             return "not fresh: step %d (%s) assigned ids %s, existing %s" % (k, op, sorted(new), sorted(old))
         if op in ("xmi", "json"):
-            want = X if op == "xmi" else J
+            want = want_of[op]
             missing = [l for l in want if st["ids"][l - 1] is None]
             if missing:
                 return "no id: after step %d (%s) structures %s still have no id" % (k, op, missing)
-            if st["doc_ids"] != sorted(st["doc_ids"]):
+            if sorted(st["doc"]) != want:
+                return "listing: step %d (%s) lists structures %s, expected %s" % (k, op, sorted(st["doc"]), want)
+            ids_now = st["ids"]
+            want_arr = [None if a is None else ids_now[a - 1] for a in arr_of_view]
+            if st["sofa_arr"] != want_arr:
+                return "sofa data: step %d (%s) writes sofaArray references %s, the arrays have ids %s" % (k, op, st["sofa_arr"], want_arr)
+            tail = st["doc_ids"]
+            if op == "json":
+                head = []
+                for vi, a in enumerate(arr_of_view):
+                    if a is not None:
+                        head.append(["fs", ids_now[a - 1]])
+                    head.append(["sofa", vi + 1])
+                if st["head"] != head:
+                    return "order: step %d (json) starts with %s, expected per view the sofa data array and the sofa %s" % (k, st["head"], head)
+                tail = tail[len(A):]
+            if tail != sorted(tail):
                 return "order: step %d (%s) lists structures in the order %s" % (k, op, st["doc_ids"][:12])
-            if sorted(st["doc"]) != sorted(want):
-                return "listing: step %d (%s) lists structures %s, expected %s" % (k, op, sorted(st["doc"]), sorted(want))
         if st["digest"] is not None:
             if op in digests and digests[op][1] != st["digest"]:
                 return "repeat: the %s document of step %d differs from the one of step %d" % (op, k, digests[op][0])
@@ -535,6 +599,8 @@ def _oracle_emit(sc, obs):
             want_ns.append(p)
     if obs["x_ns"] != want_ns:
         return "namespaces: XMI declares %s, expected first-use order %s" % (obs["x_ns"], want_ns)
+    if [x[3] for x in obs["x_sofas"]] != obs["arr_ids"]:
+        return "sofa data: XMI sofas name the arrays %s, expected %s" % ([x[3] for x in obs["x_sofas"]], obs["arr_ids"])
     for (name, sid, members), (xs, xm) in zip(obs["views"], obs["x_views"]):
         if xs != sid or xm != sorted(members):
             return "members: XMI view %s has members %s, expected %s" % (name, xm, sorted(members))
@@ -544,10 +610,15 @@ def _oracle_emit(sc, obs):
             return "types: JSON (%s) lists types %s, expected %s" % (mode, seen, want)
     if obs["j_none_types"] is not None:
         return "types: JSON (NONE) carries a type system"
-    nv = len(sc["cspec"]["views"])
-    want_fs = list(range(1, nv + 1)) + sorted(i for _l, i, _t in obs["found_j"])
+    by_lab = {o["o"]: o for o in sc["cspec"]["objs"]}
+    want_fs = []
+    for vi, v in enumerate(sc["cspec"]["views"]):
+        if v.get("array") is not None:
+            want_fs.append(by_lab[v["array"]]["id"])
+        want_fs.append(vi + 1)
+    want_fs += sorted(i for _l, i, _t in obs["found_j"])
     if [i for i, _t in obs["j_fs"]] != want_fs or [i for i, _t in obs["j_none_fs"]] != want_fs:
-        return "order: JSON lists structures %s, expected sofas then ids ascending %s" % ([i for i, _t in obs["j_fs"]][:12], want_fs[:12])
+        return "order: JSON lists structures %s, expected sofas (each after its data array) then ids ascending %s" % ([i for i, _t in obs["j_fs"]][:12], want_fs[:12])
     for (name, sid, members), (jn, js, jm) in zip(obs["views"], obs["j_views"]):
         if jn != name or js != sid or jm != sorted(members):
             return "members: JSON view %s has members %s, expected %s" % (name, jm, sorted(members))
@@ -606,8 +677,8 @@ def render(sc, obs):
         steps.append("mkObs [%s] (%s) %s %s" % (";".join("(%s,%s)" % (z(l), z(b)) for l, b in delta), d, z(cls), q))
         prev_ids, prev_q = st["ids"], st["queries"]
     ids = [(-1 if i is None else i) for i in obs["ids0"]]
-    return "CSeq %s %s %s %s %s %s %s\n  %s" % (
-        zl(ids), z(obs["next"]), zl(obs["tx"]), zl(obs["tj"]), zll(obs["qlabels"]), zll(obs["q0"]),
+    return "CSeq %s %s %s %s %s %s %s %s\n  %s" % (
+        zl(ids), z(obs["next"]), zl(obs["A"]), zl(obs["tx"]), zl(obs["tj"]), zll(obs["qlabels"]), zll(obs["q0"]),
         glist([GOP[o] for o in sc["ops"]]), glist(steps, ";\n   "))
 
 
@@ -616,7 +687,8 @@ def _render_emit(sc, obs):
         return glist(["mkFi %s %d%%N %s" % (z(i), l, gstr(t)) for l, i, t in items])
 
     nv = len(sc["cspec"]["views"])
-    sofas = glist(["mkSo %d %d %s" % (k + 1, k + 1, gstr(v["name"])) for k, v in enumerate(sc["cspec"]["views"])])
+    sofas = glist(["mkSo %d %d %s %s" % (k + 1, k + 1, gstr(v["name"]), "None" if a is None else "(Some %s)" % z(a))
+                   for k, (v, a) in enumerate(zip(sc["cspec"]["views"], obs["arr_ids"]))])
     views = glist(["(%s, mkVi %s %s)" % (gstr(n), z(s), zl(m)) for n, s, m in obs["views"]])
     x_fs = glist(["(%s,%s)" % (z(i), gstr(p)) for i, p in obs["x_fs"]])
     j_types = glist(["(%s,%s)" % (sl(given), sl(seen)) for _m, given, seen in obs["j_types"]])
@@ -630,9 +702,50 @@ def _render_emit(sc, obs):
 # ------------------------------------------------------------------------------------------------ generation
 
 
-def _gen_cas(rng, cassis, all_ids, n_objs=(3, 8)):
+BYTE_ARRAY = scen.T + "ByteArray"
+
+
+def _add_sofa_arrays(rng, cspec, all_ids, p=0.3, settled=False):
+    """Sofa data held by a uima.cas.ByteArray (view.sofa_array = ...): an object of its own, set through the API.  Mostly
+    reachable only through its sofa, sometimes indexed as well, sometimes shared by two sofas.  Without explicit ids in the
+    CAS it has none either; in a CAS with explicit ids it has one or (unless `settled`) none - then the largest explicit id
+    is moved to an indexed structure, so that the id generator is ahead of every id (ids below next: ASSUMPTIONS)."""
+    objs, views = cspec["objs"], cspec["views"]
+    used = {o["id"] for o in objs if o.get("id") is not None} | set(range(1, len(views) + 1))
+    last = None
+    idless = False
+    for v in views:
+        if rng.random() >= p:
+            continue
+        if last is not None and rng.random() < 0.2:
+            v["array"] = last
+            continue
+        lab = max(o["o"] for o in objs) + 1
+        oid = None
+        if all_ids and (settled or rng.random() < 0.5):
+            oid = rng.choice([k for k in range(len(views) + 1, 4 * len(objs) + 40) if k not in used])
+            used.add(oid)
+        idless = idless or oid is None
+        objs.append({"o": lab, "type": BYTE_ARRAY, "id": oid,
+                     "slots": {"elements": {"list": [{"i": rng.choice([0, 1, 15, 16, 127, 128, 250, 255])}
+                                                     for _ in range(rng.choice([0, 1, 4]))]}}})
+        v["array"] = last = lab
+        if rng.random() < 0.2:
+            cspec["members"].append([rng.randrange(len(views)), lab])
+    if all_ids and idless:
+        member_labels = {l for _v, l in cspec["members"]}
+        with_id = [o for o in objs if o.get("id") is not None]
+        top = max(with_id, key=lambda o: o["id"])
+        first = next(o for o in with_id if o["o"] in member_labels)   # gen_cspec indexes at least one structure
+        top["id"], first["id"] = first["id"], top["id"]
+    return cspec
+
+
+def _gen_cas(rng, cassis, all_ids, n_objs=(3, 8), arrays=0.3, settled=False):
     tspec = scen.gen_tspec(rng, n_types=rng.choice([6, 7, 8]))
     cspec = scen.gen_cspec(rng, cassis, tspec, n_objs=n_objs, all_ids=all_ids)
+    if arrays:
+        _add_sofa_arrays(rng, cspec, all_ids, p=arrays, settled=settled)
     user = [t["name"] for t in tspec if t["name"] != "a.MyStr"]
     used = [o["type"] for o in cspec["objs"] if o["type"] in user]
     qtype = rng.choice(used + [scen.ANNOTATION, scen.TOP]) if used else scen.TOP
@@ -647,13 +760,20 @@ def _all_histories():
     return out
 
 
+def _lone_idless_array(cassis, base):
+    """Some sofa's data is a byte array without an id that only the sofa holds (no traversal reaches it)."""
+    _ts, cas, _views, objs = _build(cassis, base)
+    reached = {id(x) for x in reach(cas, "json")}
+    return any(objs[a].xmiID is None and id(objs[a]) not in reached for a in _arrays(base))
+
+
 def _interesting(cassis, base):
-    """An id-less CAS in which XMI has something to number and JSON something more."""
+    """An id-less CAS in which XMI has something to number and JSON something more, and a sofa data array only its sofa holds."""
     ts, cas, _views, objs = _build(cassis, base)
     lab_of = {id(fs): l for l, fs in objs.items()}
     X = {lab_of[id(x)] for x in reach(cas, "xmi") if id(x) in lab_of}
     J = {lab_of[id(x)] for x in reach(cas, "json") if id(x) in lab_of}
-    return any(objs[l].xmiID is None for l in X) and len(J) > len(X)
+    return any(objs[l].xmiID is None for l in X) and len(J) > len(X) and _lone_idless_array(cassis, base)
 
 
 def generate(rng, tier):
@@ -664,9 +784,9 @@ def generate(rng, tier):
     n_emit = {"quick": 60, "thorough": 300, "search": 100}[tier]
     for k in range(n_exh):
         all_ids = k % 2 == 1
-        for _try in range(200):
-            base = _gen_cas(rng, cassis, all_ids=all_ids, n_objs=(3, 6))
-            if all_ids or _interesting(cassis, base):
+        for _try in range(400):
+            base = _gen_cas(rng, cassis, all_ids=all_ids, n_objs=(3, 6), arrays=0.5)
+            if _lone_idless_array(cassis, base) if all_ids else _interesting(cassis, base):
                 break
         for ops in _all_histories():
             yield dict(base, kind="seq", ops=ops)
@@ -676,7 +796,7 @@ def generate(rng, tier):
             ops = [rng.choice(OPS + ["xmi", "json"]) for _ in range(4)]
             yield dict(base, kind="seq", ops=ops)
     for _ in range(n_emit):
-        base = _gen_cas(rng, cassis, all_ids=True, n_objs=(3, 12))
+        base = _gen_cas(rng, cassis, all_ids=True, n_objs=(3, 12), settled=True)
         yield dict(base, kind="emit")
 
 
@@ -728,6 +848,12 @@ def distribution(scenarios, observations):
     return {"seq_cases": len(seq), "emit_cases": len(emit),
             "seq_without_explicit_ids": sum(1 for s, _o in seq if any(x.get("id") is None for x in s["cspec"]["objs"])),
             "seq_histories_assigning_ids": assigning,
+            "seq_with_sofa_data_array": sum(1 for s, _o in seq if _arrays(s)),
+            "seq_with_idless_array_only_its_sofa_holds": sum(
+                1 for s, o in seq if any(o["ids0"][a - 1] is None and a not in o["J"] for a in o["A"])),
+            "seq_array_also_reached_by_traversal": sum(1 for _s, o in seq if any(a in o["J"] for a in o["A"])),
+            "seq_array_shared_by_two_sofas": sum(1 for _s, o in seq if len(set(o["A"])) < len(o["A"])),
+            "emit_with_sofa_data_array": sum(1 for s, _o in emit if _arrays(s)),
             "seq_json_reaches_more_than_xmi": sum(1 for _s, o in seq if len(o["J"]) > len(o["X"])),
             "seq_two_documents_of_one_format": sum(1 for s, _o in seq if len([x for x in s["ops"] if x in ("xmi", "json")])
                                                    != len({x for x in s["ops"] if x in ("xmi", "json")})),
@@ -742,7 +868,7 @@ MANIFEST = {
                   "is followed by a stable sort on a unique key (sort_unique for Z and string keys, emit_order_independent for XMI, "
                   "JSON, type-system XML); a save only adds generator-fresh, pairwise distinct ids to id-less structures, is "
                   "idempotent, and along every history of to_xmi/to_json/to_xml/select/select_all/typecheck all documents of one "
-                  "format are equal and queries answer the same. The model is tied to /repo on every run by evaluating it in Coq on "
+                  "format are equal, each lists every byte array holding sofa data, and queries answer the same. The model is tied to /repo on every run by evaluating it in Coq on "
                   "the observed histories and emitted orders. Byte identity across processes with different PYTHONHASHSEED, across "
                   "string / str path / Path sinks and option combinations is observed by a subprocess oracle on every run, not proved.",
     "level_note": "Trusted: Coq kernel + vm_compute; hand-written model coq/Determinism.v; harness (own identity-based reachability, "
